@@ -65,6 +65,12 @@ def corpus():
     return [dict(cfg=inh, prog=[['add', 1, 1, {'a': 1, 'pages': 1}], ['commit'], ['del', 1, 1], ['commit'],
                                 ['add', 0, 1, {'a': 2}], ['commit'], ['del', 0, 1], ['commit'],
                                 ['add', 1, 1, {'a': 3, 'pages': 3}], ['commit']]),
+            # a key with history is inserted again, flushed and deleted within ONE transaction (live before, or deleted)
+            dict(cfg=dict(shape='blog', strategy='validity'),
+                 prog=[['add', 0, 1, {'a': 1}], ['commit'], ['del', 0, 1], ['commit'], ['add', 0, 1, {'a': 2}], ['flush'],
+                       ['del', 0, 1], ['commit'], ['add', 0, 2, {'a': 1}], ['commit'], ['add', 0, 1, {'a': 3}], ['commit']]),
+            dict(cfg=inh, prog=[['add', 1, 1, {'a': 1, 'pages': 1}], ['commit'], ['del', 1, 1], ['commit'],
+                                ['add', 1, 1, {'a': 2, 'pages': 2}], ['flush'], ['del', 1, 1], ['commit'], ['add', 0, 2, {'a': 1}], ['commit']]),
             dict(cfg=dict(shape='blog', strategy='validity'),
                  prog=[['add', 0, 1, {'a': 1}], ['add', 0, 2, {'a': 1}], ['commit'], ['set', 0, 1, {'a': 2}], ['flush'],
                        ['set', 0, 1, {'a': 0}], ['commit'], ['del', 0, 1], ['flush'], ['add', 0, 1, {'a': 5}], ['commit'],
